@@ -25,6 +25,14 @@ Proof.
   rewrite E. cbn [Nat.eqb app]. apply (chunks8_roundtrip m); lia.
 Qed.
 
+Lemma to_bools_length' : forall bs, length (to_bools bs) = 8 * length bs.
+Proof. induction bs; cbn [to_bools flat_map length]; auto. rewrite app_length. fold (to_bools bs). rewrite IHbs. cbn. lia. Qed.
+Lemma from_bools_length : forall m l, length l = 8 * m -> length (from_bools l) = m.
+Proof.
+  intros m l Hl. pose proof (from_to_bools m l Hl) as E. apply (f_equal (@length bool)) in E.
+  rewrite to_bools_length' in E. lia.
+Qed.
+
 Lemma common_prefix_firstn : forall h a b, h <= common_prefix_len a b -> firstn h a = firstn h b.
 Proof.
   induction h; intros a b H; [reflexivity|].
